@@ -135,7 +135,10 @@ impl FieldElement for BaseElement {
     fn double(self) -> Self {
         let ret = (self.0 as u128) << 1;
         let (result, over) = (ret as u64, (ret >> 64) as u64);
-        Self(result.wrapping_sub(M * over))
+        // 2 * self.0 < 2 * M: subtract M when the doubling carried out of 64 bits or landed in
+        // [M, 2^64), so that the result is the canonical representative
+        let reduce = over | ((result >= M) as u64);
+        Self(result.wrapping_sub(M * reduce))
     }
 
     #[inline]
